@@ -1,11 +1,279 @@
-import GeffModel.Backends
-/-! # C03 — graph-library round trips are faithful and the backends agree (theorems follow) -/
-namespace GeffProps.C03
-open Geff.Dicts Geff.Backends
+import GeffProofs.Backends
+/-! # C03 — graph-library round trips are faithful and the backends agree
 
-theorem placeholder_setColumn_nil (n : String) (es : List (Option PyVal)) : setColumn n [] es = [] := by
-  cases es with
-  | nil => rfl
-  | cons e t => cases e <;> rfl
+Property theorems only.  Models: `GeffModel/Dicts.lean` (`write_dicts`, `dict_props_to_arr`,
+`_determine_default_value`, `_exact_int_array`, numpy's dtype inference for Python scalars) and
+`GeffModel/Backends.lean` (`NxBackend`, `RxBackend`, `SgBackend` construct / write and the
+observation each `GraphAdapter` offers), tied to the implementation by `harness/corr/C03.py`.
+
+How the statement of the property is read here
+
+* an *attribute graph* is observed through what the backends' graph adapters offer: directedness,
+  "is `i` a node", "is `(u, v)` an edge" (either orientation when undirected), and for every node /
+  edge and property name `none` (the element lacks the property — *no fill value is ever shown*) or
+  `some v`, where `v : PyVal` carries its **kind** in its constructor
+  (`sc (b _) | sc (i _) | sc (f _) | sc (s _) | arr _ _` = bool | int | float | str | array), so
+  equality of observations is equality of the sets of present properties, of values and of kinds;
+* the zarr store between `write` and `read` is property C01's subject: it enters as the explicit,
+  named hypothesis `StoreRoundTrip` (what is read back is the in-memory geff that was written, up
+  to the order of the property dicts) — exercised on every round-trip case of the correspondence.
+-/
+namespace GeffProps.C03
+open Geff.Np Geff.Dicts Geff.Backends
+
+/-- what a graph shows through its adapter -/
+structure Obs where
+  directed : Bool
+  hasNode : Int → Bool
+  hasEdge : Int × Int → Bool
+  nodeAttr : Int → String → Option PyVal
+  edgeAttr : Int × Int → String → Option PyVal
+
+def nxObs (g : NxGraph) : Obs := ⟨g.directed, g.hasNode, g.hasEdge, g.nodeAttr, g.edgeAttr⟩
+def rxObs (g : RxGraph) : Obs := ⟨g.directed, g.hasNode, g.hasEdge, g.nodeAttr, g.edgeAttr⟩
+
+/-- SPECIFICATION of an in-memory geff (docs: `values` + optional `missing` per property): the
+attribute graph it denotes.  Element `k` has property `name` iff the property exists and `k` is
+not marked missing; its value is `values[k]`. -/
+def memObs (m : MemGeff) : Obs :=
+  ⟨m.directed, fun i => decide (i ∈ m.nodeIds), fun e => m.edgeIds.any (fun x => sameEdge m.directed x e),
+   specNodeAttr m, specEdgeAttr m⟩
+
+/-- what property C01 establishes about the store: reading back what was written returns the same
+in-memory geff, up to the order in which the properties are listed -/
+structure MemEquiv (m m' : MemGeff) : Prop where
+  directed : m'.directed = m.directed
+  nodeIds : m'.nodeIds = m.nodeIds
+  edgeIds : m'.edgeIds = m.edgeIds
+  nodeProps : m'.nodeProps.Perm m.nodeProps
+  edgeProps : m'.edgeProps.Perm m.edgeProps
+
+/-- **named hypothesis** (property C01, not re-proved here) -/
+def StoreRoundTrip (store : MemGeff → Except Err MemGeff) : Prop :=
+  ∀ m, MemValid m → ∃ m', store m = .ok m' ∧ MemEquiv m m'
+
+/-! ## backends agree -/
+
+theorem nx_hasNode_eq (g : NxGraph) (ids : List Int) (h : g.nodes.map (·.1) = ids) (i : Int) :
+    g.hasNode i = decide (i ∈ ids) := by
+  subst h
+  simp only [NxGraph.hasNode]
+  rw [Bool.eq_iff_iff]
+  simp only [List.any_eq_true, decide_eq_true_eq, List.mem_map]
+  constructor
+  · rintro ⟨x, hx, rfl⟩; exact ⟨x, hx, rfl⟩
+  · rintro ⟨x, hx, rfl⟩; exact ⟨x, hx, rfl⟩
+
+theorem nx_hasEdge_eq (g : NxGraph) (es : List (Int × Int)) (h : g.edges.map (·.1) = es) (e : Int × Int) :
+    g.hasEdge e = es.any (fun x => sameEdge g.directed x e) := by
+  subst h
+  simp [NxGraph.hasEdge, List.any_map, Function.comp_def]
+
+/-- **C03 (networkx construct is the specified graph)**: for every valid in-memory geff — any
+number of nodes / edges / properties, any dtypes, any missing masks, variable-length or not —
+`NxBackend.construct` succeeds and the graph shows exactly what the geff denotes. -/
+theorem C03_nx_construct (m : MemGeff) (h : MemValid m) :
+    ∃ g, nxConstruct m = .ok g ∧ nxObs g = memObs m := by
+  obtain ⟨g, hg, hd, hn, he, hna, hea⟩ := nxConstruct_spec m h
+  refine ⟨g, hg, ?_⟩
+  simp only [nxObs, memObs, Obs.mk.injEq]
+  refine ⟨hd, ?_, ?_, ?_, ?_⟩
+  · funext i; exact nx_hasNode_eq g _ hn i
+  · funext e; rw [nx_hasEdge_eq g _ he e, hd]
+  · funext i name; exact hna i name
+  · funext e name; exact hea e name
+
+/-- **C03 (rustworkx construct is the specified graph)**, observed through `to_rx_id_map` as the
+(repaired) `RxGraphAdapter` does. -/
+theorem C03_rx_construct (m : MemGeff) (h : MemValid m) :
+    ∃ g, rxConstruct m = .ok g ∧ rxObs g = memObs m := by
+  obtain ⟨g, hg, hd, hn, he, hna, hea⟩ := rxConstruct_spec m h
+  refine ⟨g, hg, ?_⟩
+  simp only [rxObs, memObs, Obs.mk.injEq]
+  exact ⟨hd, funext hn, funext he, funext fun i => funext fun n => hna i n,
+    funext fun e => funext fun n => hea e n⟩
+
+/-- **C03 (backends agree)**: constructing from one in-memory geff through networkx and through
+rustworkx yields graphs with the same nodes, edges, directedness and, per element, the same
+present properties with equal values and kinds. -/
+theorem C03_backends_agree (m : MemGeff) (h : MemValid m) :
+    ∃ gn gr, nxConstruct m = .ok gn ∧ rxConstruct m = .ok gr ∧ nxObs gn = rxObs gr := by
+  obtain ⟨gn, h1, h2⟩ := C03_nx_construct m h
+  obtain ⟨gr, h3, h4⟩ := C03_rx_construct m h
+  exact ⟨gn, gr, h1, h3, h2.trans h4.symm⟩
+
+/-! ## the dict → array layer: absent stays absent, kind preserved -/
+
+/-- **C03 (dict layer)**: for a property whose present values are all scalars or all lists of one
+shape, with leaves of one class (`LeafClass`: bool | ints fitting int64 | ints fitting uint64 | float
+| str) — on *any* subset of the elements — `dict_props_to_arr` builds one array of which element
+`i` is marked missing iff it lacks the property, and every present entry reads back as exactly the
+value given (same kind: the fill value never changes the inferred dtype). -/
+theorem C03_dict_layer {ι : Type} (K : LeafClass) (sh : Option (List Nat)) (data : List (ι × Attrs))
+    (name : String) (h : RegularVals K sh (present data name)) :
+    ∃ c, dictPropToArr data name = .ok c ∧ c.WF data.length ∧
+      ∀ i (hi : i < data.length), c.entry i = (data[i]).2.lookup name :=
+  dictPropToArr_regular K sh data name h
+
+/-! ## networkx round trip -/
+
+theorem lookup_of_mem_nodup {β : Type} (l : List (String × β)) (k : String) (v : β)
+    (hm : (k, v) ∈ l) (hnd : (l.map (·.1)).Nodup) : l.lookup k = some v := by
+  induction l with
+  | nil => simp at hm
+  | cons p t ih =>
+    obtain ⟨k', v'⟩ := p
+    rw [lookup_cons_ite]
+    have hnd' := List.nodup_cons.1 (by simpa using hnd)
+    rcases List.mem_cons.1 hm with heq | hm'
+    · cases heq; simp
+    · have hne : k ≠ k' := by
+        intro e; subst e
+        exact hnd'.1 (List.mem_map.2 ⟨(k, v), hm', rfl⟩)
+      simp only [hne, if_false]
+      exact ih hm' hnd'.2
+
+theorem perm_lookup {β : Type} (l l' : List (String × β)) (hp : l'.Perm l) (hnd : (l.map (·.1)).Nodup)
+    (k : String) : l'.lookup k = l.lookup k := by
+  have hnd' : (l'.map (·.1)).Nodup := (hp.map (·.1)).nodup_iff.2 hnd
+  cases hl : l.lookup k with
+  | some v => exact lookup_of_mem_nodup l' k v (hp.mem_iff.2 (lookup_mem l k v hl)) hnd'
+  | none =>
+    apply lookup_none_of_not_mem
+    intro hk
+    obtain ⟨v, hv⟩ := lookup_some_of_mem l k ((hp.map (·.1)).mem_iff.1 hk)
+    rw [hv] at hl; cases hl
+
+theorem memEquiv_valid (m m' : MemGeff) (he : MemEquiv m m') (h : MemValid m) : MemValid m' :=
+  { nodup := by rw [he.nodeIds]; exact h.nodup
+    endpoints := by rw [he.nodeIds, he.edgeIds]; exact h.endpoints
+    simple := by rw [he.edgeIds, he.directed]; exact h.simple
+    nodeNames := ((he.nodeProps.map (·.1)).nodup_iff).2 h.nodeNames
+    edgeNames := ((he.edgeProps.map (·.1)).nodup_iff).2 h.edgeNames
+    nodeCols := by
+      intro p hp; rw [he.nodeIds]; exact h.nodeCols p (he.nodeProps.mem_iff.1 hp)
+    edgeCols := by
+      intro p hp; rw [he.edgeIds]; exact h.edgeCols p (he.edgeProps.mem_iff.1 hp) }
+
+theorem memEquiv_obs (m m' : MemGeff) (he : MemEquiv m m') (h : MemValid m) : memObs m' = memObs m := by
+  simp only [memObs, Obs.mk.injEq]
+  refine ⟨he.directed, by rw [he.nodeIds], by rw [he.edgeIds, he.directed], ?_, ?_⟩
+  · funext i name
+    simp only [specNodeAttr, he.nodeIds, memAttr, perm_lookup _ _ he.nodeProps h.nodeNames]
+  · funext e name
+    simp only [specEdgeAttr, he.edgeIds, he.directed, memAttr, perm_lookup _ _ he.edgeProps h.edgeNames]
+
+/-- `geff.write(G, store)` then `geff.read(store, backend="networkx")`, the store abstracted -/
+def nxWriteRead (store : MemGeff → Except Err MemGeff) (G : NxGraph) : Except Err NxGraph :=
+  match nxWrite G with
+  | .error e => .error e
+  | .ok m =>
+    match store m with
+    | .error e => .error e
+    | .ok m' => nxConstruct m'
+
+/-- `geff.write(G, store)` then `geff.read(store, backend="rustworkx")` -/
+def nxWriteRxRead (store : MemGeff → Except Err MemGeff) (G : NxGraph) : Except Err RxGraph :=
+  match nxWrite G with
+  | .error e => .error e
+  | .ok m =>
+    match store m with
+    | .error e => .error e
+    | .ok m' => rxConstruct m'
+
+theorem nxWrite_obs (G : NxGraph) (h : NxDomain G) :
+    ∃ m, nxWrite G = .ok m ∧ MemValid m ∧ memObs m = nxObs G := by
+  obtain ⟨m, hm, hv, hd, hna, hea, hni, hei⟩ := nxWrite_spec G h
+  refine ⟨m, hm, hv, ?_⟩
+  simp only [memObs, nxObs, Obs.mk.injEq]
+  refine ⟨hd, ?_, ?_, ?_, ?_⟩
+  · funext i; rw [hni]; exact (nx_hasNode_eq G _ rfl i).symm
+  · funext e; rw [hei, hd]; exact (nx_hasEdge_eq G _ rfl e).symm
+  · funext i name; exact hna i name
+  · funext e name; exact hea e name
+
+/-- **C03 (networkx round trip)**: for every attribute graph in the documented domain
+(`NxDomain`: ids in `[0, 2^64)`, simple graph, every property *regular* on the subset of elements
+that has it) and every store satisfying `StoreRoundTrip`, writing the graph and reading it back
+with networkx succeeds and returns a graph with the same nodes, edges, directedness and per
+element the same present properties with equal values and kinds.  In particular an element that
+lacked a property still lacks it, and a bool / large-integer property that some elements lack
+stays bool / integer. -/
+theorem C03_nx_roundtrip (store : MemGeff → Except Err MemGeff) (hs : StoreRoundTrip store)
+    (G : NxGraph) (h : NxDomain G) :
+    ∃ G', nxWriteRead store G = .ok G' ∧ nxObs G' = nxObs G := by
+  obtain ⟨m, hm, hv, hobs⟩ := nxWrite_obs G h
+  obtain ⟨m', hst, heq⟩ := hs m hv
+  obtain ⟨G', hG', hobs'⟩ := C03_nx_construct m' (memEquiv_valid m m' heq hv)
+  refine ⟨G', by simp only [nxWriteRead, hm, hst, hG'], ?_⟩
+  rw [hobs', memEquiv_obs m m' heq hv, hobs]
+
+/-- **C03 (written by networkx, read by rustworkx)**: the other ordered backend pair of the
+dict-based writers — the rustworkx graph read back shows the networkx graph that was written. -/
+theorem C03_nx_to_rx (store : MemGeff → Except Err MemGeff) (hs : StoreRoundTrip store)
+    (G : NxGraph) (h : NxDomain G) :
+    ∃ G', nxWriteRxRead store G = .ok G' ∧ rxObs G' = nxObs G := by
+  obtain ⟨m, hm, hv, hobs⟩ := nxWrite_obs G h
+  obtain ⟨m', hst, heq⟩ := hs m hv
+  obtain ⟨G', hG', hobs'⟩ := C03_rx_construct m' (memEquiv_valid m m' heq hv)
+  refine ⟨G', by simp only [nxWriteRxRead, hm, hst, hG'], ?_⟩
+  rw [hobs', memEquiv_obs m m' heq hv, hobs]
+
+/-! ## non-vacuity and the defects the theorems exclude -/
+
+/-- a directed graph with a bool property on a subset of the nodes, an integer property with a
+value ≥ 2^63 next to a small one and a missing one, ids on both sides of 2^63 -/
+def exG : NxGraph :=
+  { directed := true,
+    nodes := [(5, [("f", .sc (.b true)), ("p", .sc (.i 9223372036854775809))]),
+              (18446744073709551615, [("p", .sc (.i 5)), ("v", .arr [2] [.f "000000000000f83f", .f "0000000000000000"])]),
+              (7, [("f", .sc (.b false))])],
+    edges := [((5, 7), [("w", .sc (.s "a"))]), ((7, 18446744073709551615), [])] }
+
+/-- the identity store satisfies the hypothesis (so the theorems are not vacuous in `store`) -/
+example : StoreRoundTrip (fun m => .ok m) :=
+  fun m _ => ⟨m, rfl, ⟨rfl, rfl, rfl, List.Perm.refl _, List.Perm.refl _⟩⟩
+
+/-- the round trip of `exG` evaluated in the model: bool stays bool under missing elements (D2),
+2^63+1 stays an exact integer next to 5 and a fill (D21), 2^64-1 stays a node id (D18) -/
+example : (nxWriteRead (fun m => .ok m) exG).toOption.map (fun g => (g.nodeAttr 5 "f", g.nodeAttr 18446744073709551615 "f",
+    g.nodeAttr 5 "p", g.nodeAttr 7 "p", g.hasNode 18446744073709551615, g.edgeAttr (5, 7) "w")) =
+    some (some (.sc (.b true)), none, some (.sc (.i 9223372036854775809)), none, true, some (.sc (.s "a"))) := by
+  decide
+
+/-- the hypotheses of the dict-layer theorem hold for the bool property of `exG` (class bool,
+scalars), for its big-integer property (class uint64) and for its list property -/
+example : RegularVals .bool none (present exG.nodes "f") := by
+  refine ⟨by simp, ?_⟩
+  intro x hx
+  simp only [present, exG, List.filterMap_cons, lookup_cons_ite] at hx
+  simp at hx
+  rcases hx with rfl | rfl <;> simp [pyShape, pyLeaves, LeafClass.holds]
+
+example : RegularVals .uint64 none (present exG.nodes "p") := by
+  refine ⟨by simp, ?_⟩
+  intro x hx
+  simp only [present, exG, List.filterMap_cons, lookup_cons_ite] at hx
+  simp at hx
+  rcases hx with rfl | rfl <;> simp [pyShape, pyLeaves, LeafClass.holds, two64]
+
+/-- D2 as it was before the repair: with the old fill (int `0` for a bool) numpy's inference on
+`[True, 0]` is int64 and `True` is stored as the integer 1 — the kind changes.  This is the fact
+`dtypeOf (fill :: present) ≠ dtypeOf present` that made the round-trip theorem false for bool. -/
+theorem C03_counterexample_old_bool_fill :
+    valuesToArr [.sc (.b true), .sc (.i 0)] = .ok (.i64, false, [([], [.i 1]), ([], [.i 0])]) := by
+  decide
+
+/-- with the repaired fill the same property is a bool array -/
+example : valuesToArr [.sc (.b true), defaultFor (.sc (.b true))] = .ok (.bool, false, [([], [.b true]), ([], [.b false])]) := by
+  decide
+
+/-- known finding `C03:ragged-int-values-ge-2^63` (outside `RegularVals`): a ragged list property
+with integers on both sides of 2^63 inside one element needs an int → float cast (values rounded,
+leaf kind changes); the model marks it as outside its domain instead of returning the values -/
+theorem C03_counterexample_ragged_big :
+    ∀ c, dictPropToArr [((1 : Int), [("p", PyVal.arr [2] [.i 1, .i 2])]),
+                        (2, [("p", PyVal.arr [3] [.i 9223372036854775809, .i 3, .i 4])])] "p" ≠ .ok c := by
+  decide
 
 end GeffProps.C03
